@@ -4,6 +4,7 @@ package main
 // E8.enc — encoding levels: query-encoded strings must not be stored into URL fields that encode again.
 
 import (
+	"go/token"
 	"golang.org/x/tools/go/types/typeutil"
 	"fmt"
 	"go/ast"
@@ -486,6 +487,85 @@ func RunFormatStrings(c *Ctx, pkgs []string) {
 			})
 		}
 	}
+	// constant in context: a concatenation of constants, sentinel texts and parameters of an unexported function that is
+	// only ever called (never used as a value) with arguments that are themselves constant in their context
+	type csite struct {
+		fi   *FuncInfo
+		call *ast.CallExpr
+	}
+	callSites := map[*types.Func][]csite{}
+	usedAsValue := map[*types.Func]bool{}
+	for _, fi := range c.P.Funcs {
+		if fi.Body == nil || fi.Lit != nil {
+			continue
+		}
+		info := fi.Pkg.TypesInfo
+		callee := map[*ast.Ident]bool{}
+		ast.Inspect(fi.Body, func(nd ast.Node) bool {
+			switch x := nd.(type) {
+			case *ast.CallExpr:
+				if fn, _ := typeutilCallee(info, x); fn != nil {
+					callSites[fn] = append(callSites[fn], csite{fi, x})
+					switch f := unparen(x.Fun).(type) {
+					case *ast.Ident:
+						callee[f] = true
+					case *ast.SelectorExpr:
+						callee[f.Sel] = true
+					}
+				}
+			case *ast.Ident:
+				if fn, ok := info.Uses[x].(*types.Func); ok && !callee[x] {
+					usedAsValue[fn] = true
+				}
+			}
+			return true
+		})
+	}
+	var constCtx func(fi *FuncInfo, e ast.Expr, depth int) bool
+	constCtx = func(fi *FuncInfo, e ast.Expr, depth int) bool {
+		info := fi.Pkg.TypesInfo
+		e = unparen(e)
+		if tv, ok := info.Types[e]; ok && tv.Value != nil {
+			return true
+		}
+		if constantSentinelText(info, e) {
+			return true
+		}
+		switch x := e.(type) {
+		case *ast.BinaryExpr:
+			return x.Op == token.ADD && constCtx(fi, x.X, depth) && constCtx(fi, x.Y, depth)
+		case *ast.Ident:
+			v, ok := info.Uses[x].(*types.Var)
+			if !ok || depth <= 0 || fi.Obj == nil || fi.Sig == nil || fi.Obj.Exported() || usedAsValue[fi.Obj] {
+				return false
+			}
+			if r := fi.Sig.Recv(); r != nil {
+				if _, isIface := r.Type().Underlying().(*types.Interface); isIface {
+					return false
+				}
+			}
+			idx := -1
+			for i := 0; i < fi.Sig.Params().Len(); i++ {
+				if fi.Sig.Params().At(i) == v {
+					idx = i
+				}
+			}
+			if idx < 0 || (fi.Sig.Variadic() && idx == fi.Sig.Params().Len()-1) || assignedIn(fi, v) {
+				return false
+			}
+			sites := callSites[fi.Obj]
+			if len(sites) == 0 {
+				return false
+			}
+			for _, cs := range sites {
+				if idx >= len(cs.call.Args) || cs.call.Ellipsis.IsValid() || !constCtx(cs.fi, cs.call.Args[idx], depth-1) {
+					return false
+				}
+			}
+			return true
+		}
+		return false
+	}
 	var wrappers []string
 	for k := range printfLike {
 		if !strings.HasPrefix(k, "fmt.") && !strings.HasPrefix(k, "log.") {
@@ -519,7 +599,7 @@ func RunFormatStrings(c *Ctx, pkgs []string) {
 			format := call.Args[p.fmtIdx]
 			tv := info.Types[format]
 			n++
-			bad := tv.Value == nil && len(call.Args) == p.fmtIdx+1 && !constantSentinelText(info, format)
+			bad := tv.Value == nil && len(call.Args) == p.fmtIdx+1 && !constCtx(fi, format, 2)
 			c.R.Obl(Obligation{Rule: "E8.fmt", Func: fi.Name, Construct: "format of " + fn.Name(), Pos: c.P.Position(call.Pos()), Discharged: !bad, Nontrivial: tv.Value == nil, Ctl: fi.Ctl})
 			if bad {
 				c.R.Find(Finding{Rule: "E8.fmt", Func: fi.Name, Construct: "data used as format in " + fn.Name() + "(" + types.ExprString(format) + ")", Pos: c.P.Position(call.Pos()),
@@ -608,4 +688,38 @@ func sentinelLiteralOK(v *types.Var) bool {
 	}
 	sentinelCache[v] = res
 	return res
+}
+
+// assignedIn: the variable is assigned (or has its address taken) somewhere in the function body.
+func assignedIn(fi *FuncInfo, v *types.Var) bool {
+	info := fi.Pkg.TypesInfo
+	found := false
+	is := func(e ast.Expr) bool {
+		id, ok := unparen(e).(*ast.Ident)
+		return ok && (info.Uses[id] == v || info.Defs[id] == v)
+	}
+	ast.Inspect(fi.Body, func(n ast.Node) bool {
+		switch x := n.(type) {
+		case *ast.AssignStmt:
+			for _, l := range x.Lhs {
+				if is(l) {
+					found = true
+				}
+			}
+		case *ast.IncDecStmt:
+			if is(x.X) {
+				found = true
+			}
+		case *ast.UnaryExpr:
+			if x.Op == token.AND && is(x.X) {
+				found = true
+			}
+		case *ast.RangeStmt:
+			if (x.Key != nil && is(x.Key)) || (x.Value != nil && is(x.Value)) {
+				found = true
+			}
+		}
+		return true
+	})
+	return found
 }
